@@ -362,8 +362,10 @@ func c11Run(r *core.Run) {
 			return
 		}
 	}
-	// Decrypt (unmarshalling variant) on the first encrypted assertion of the wire message
-	if len(re.Assertions) > 0 {
+	// Decrypt (unmarshalling variant) on the first encrypted assertion of the wire message. It hands the
+	// plaintext to encoding/xml as it is, so look-alike attributes in a foreign namespace (layout extras)
+	// are outside what this comparison can state.
+	if len(re.Assertions) > 0 && !lay.Extras {
 		var ea struct {
 			EA []types.EncryptedAssertion `xml:"EncryptedAssertion"`
 		}
